@@ -68,7 +68,23 @@ func (f *c20FailScan) PostProcessDefinitionRegistry(r container.DefinitionRegist
 	return nil
 }
 
+// c20ReadScan is a user scanner that looks at the definitions (and their properties) of the other
+// components - what a scanner of an earlier phase has written.
+type c20ReadScan struct{ seen int }
+
+func (f *c20ReadScan) Naming() string { return "zread" }
+func (f *c20ReadScan) PostProcessDefinitionRegistry(r container.DefinitionRegistry, c any, name string) error {
+	r.GetMetaOrRegister(name, c)
+	n := 0
+	for _, m := range r.GetMetas() {
+		n += len(m.GetAllProperties())
+	}
+	_ = n
+	return nil
+}
+
 type c20ScanCase struct {
+	Reader   bool  `json:"with_reading_scanner,omitempty"`
 	N        int   `json:"components"`
 	FailMask int   `json:"failing_mask"`
 	Builtin  bool  `json:"with_builtin_scanner"`
@@ -114,6 +130,27 @@ func c20Scan(c *core.Ctx) {
 			}
 		}
 	}
+	gen0 := gen
+	gen = func(yield func(c20ScanCase) bool) {
+		stopped := false
+		gen0(func(cs c20ScanCase) bool {
+			if !yield(cs) {
+				stopped = true
+			}
+			return !stopped
+		})
+		if stopped {
+			return
+		}
+		// a user scanner that reads the other components' definitions, next to the built-in scanner
+		for n := 1; n <= 2; n++ {
+			for k := 0; k < factorialInt(n); k++ {
+				if !yield(c20ScanCase{N: n, Builtin: true, Reader: true, Order: scen.NthPerm(n, k), Bound: 2 - n}) {
+					return
+				}
+			}
+		}
+	}
 	Cases(c, gen, func(c *core.Ctx, cs c20ScanCase) {
 		rank := map[string]int{}
 		for pos, i := range cs.Order {
@@ -131,9 +168,14 @@ func c20Scan(c *core.Ctx) {
 			for i := 0; i < cs.N; i++ {
 				fs.fail[i] = cs.FailMask>>i&1 == 1
 			}
-			reg.RegisterSingleton(fs)
+			if !cs.Reader { // the reading scanner takes the failing user scanner's place
+				reg.RegisterSingleton(fs)
+			}
 			if cs.Builtin {
 				reg.RegisterSingleton(processors.NewDependencyAwarePostProcessors())
+			}
+			if cs.Reader {
+				reg.RegisterSingleton(&c20ReadScan{})
 			}
 			f := factory.Default()
 			f.SetRegistry(reg)
